@@ -313,6 +313,14 @@ def check(prop, tier):
         ur = results[u]
         if ur.status != "ok":
             undecided.append(f"{u}: {ur.status}: {ur.reason}")
+            if ur.status == "rlimit":
+                # the solver gave up on some function; obligations it definitely refuted in other functions still count
+                for d in ur.diags:
+                    if d.rlimit or d.kind is None or prop not in d.props(ur):
+                        continue
+                    ob = d.obligation(u)
+                    kf = finding_for(prop, ob, kfs)
+                    (known if kf else violations).append((u, d, ob, kf))
             continue
         # vacuity (i): something was verified, and at least every prove-mode function
         mine = [k for k, f in ur.fnmeta.items() if prop in f["props"] and f["mode"] == "prove"]
